@@ -1,6 +1,7 @@
 package main
 
 import (
+	"os"
 	"fmt"
 	"go/constant"
 	"go/types"
@@ -604,6 +605,15 @@ func checkC07(c *Ctx) {
 			bad = "no Control Change sent"
 		} else if !analogField(sends[0].B1, thisF) {
 			bad = fmt.Sprintf("the %s side sends controller %s, expected analog.%s", side, sends[0].B1, thisF)
+			if os.Getenv("HIDI_DEBUG") == "R7.1" {
+				for _, fa := range fas {
+					fmt.Fprintln(os.Stderr, "   fa", fa.op, fa.k, fa.term[:min(len(fa.term), 80)])
+				}
+				n := len(p.Atoms)
+				for _, a := range p.Atoms[max(0, n-8):] {
+					fmt.Fprintln(os.Stderr, "   atom", a.Taken, a.Cond.String()[:min(len(a.Cond.String()), 160)])
+				}
+			}
 		} else if ccChannelSide(dv, sends[0].Channel) != side {
 			bad = fmt.Sprintf("controller of the %s side is sent on the other side's channel (%s)", side, sends[0].Channel)
 		} else if _, isConst := sends[0].B2.IsConst(); isConst {
